@@ -11,24 +11,24 @@ Open Scope Z_scope.
    what the saved document holds in memory.  With pretty the equality is up to [mask], any projection that pretty_indent
    preserves (C11_pretty_text / C11_pretty_attrs_skeleton establish that for the projection of C11) *)
 Theorem C03_roundtrip : forall (xml bytes kid : Type) (ser : xml -> bytes) (par : bytes -> xml) (pretty stamp : xml -> xml)
-    (entries : xml -> mentries) (kids : xml -> list kid) (mime : bytes -> mtype) (rdf0 : bytes) (mask : xml -> xml),
+    (entries : xml -> mentries) (kids : xml -> list kid) (mime : bytes -> mtype) (rdf0 : bytes) (proj : Type) (mask : xml -> proj),
   (forall x, par (ser x) = x) ->
   forall (fs : fsys bytes kid) (d : document xml bytes) (t : target) (pk : packaging) (pty : bool) (fs' : fsys bytes kid) (d' : document xml bytes) (c : container bytes),
   WFd xml bytes kid fs d -> pk <> PXml -> (pty = true -> forall x, mask (pretty x) = mask x) ->
   d_save xml bytes kid ser par pretty stamp entries kids mime rdf0 FIXED fs d t pk pty = (fs', d', true) ->
   c_open bytes kid fs' (tgt_id t) false = Some c ->
-  forall n, view xml bytes kid par mask fs' (mkD c []) n = view xml bytes kid par mask fs d' n.
+  forall n, view xml bytes kid par proj mask fs' (mkD c []) n = view xml bytes kid par proj mask fs d' n.
 Proof. exact roundtrip. Qed.
 Print Assumptions C03_roundtrip.
 
 (* the file itself, read back independently, is the document: no part lost, invented or changed (domain and contents) *)
 Theorem C03_no_part_lost_or_invented : forall (xml bytes kid : Type) (ser : xml -> bytes) (par : bytes -> xml) (pretty stamp : xml -> xml)
-    (entries : xml -> mentries) (kids : xml -> list kid) (mime : bytes -> mtype) (rdf0 : bytes) (mask : xml -> xml),
+    (entries : xml -> mentries) (kids : xml -> list kid) (mime : bytes -> mtype) (rdf0 : bytes) (proj : Type) (mask : xml -> proj),
   (forall x, par (ser x) = x) ->
   forall (fs : fsys bytes kid) (d : document xml bytes) (t : target) (pk : packaging) (pty : bool) (fs' : fsys bytes kid) (d' : document xml bytes),
   WFd xml bytes kid fs d -> pk <> PXml -> (pty = true -> forall x, mask (pretty x) = mask x) ->
   d_save xml bytes kid ser par pretty stamp entries kids mime rdf0 FIXED fs d t pk pty = (fs', d', true) ->
-  forall n, file_view xml bytes kid par mask (lookup (tgt_id t) fs') n = view xml bytes kid par mask fs d' n.
+  forall n, file_view xml bytes kid par proj mask (lookup (tgt_id t) fs') n = view xml bytes kid par proj mask fs d' n.
 Proof. exact save_file_is_memory. Qed.
 Print Assumptions C03_no_part_lost_or_invented.
 
@@ -36,12 +36,12 @@ Print Assumptions C03_no_part_lost_or_invented.
    so together with the two theorems above  view (open (save d)) = view d  for every part but manifest.rdf, which
    Document.save reconciles with the manifest on purpose *)
 Theorem C03_unmodified_identity : forall (xml bytes kid : Type) (ser : xml -> bytes) (par : bytes -> xml) (pretty stamp : xml -> xml)
-    (entries : xml -> mentries) (kids : xml -> list kid) (mime : bytes -> mtype) (rdf0 : bytes) (mask : xml -> xml),
+    (entries : xml -> mentries) (kids : xml -> list kid) (mime : bytes -> mtype) (rdf0 : bytes) (proj : Type) (mask : xml -> proj),
   (forall x, mask (stamp x) = mask x) ->
   forall (fs : fsys bytes kid) (d : document xml bytes) (t : target) (pk : packaging) (pty : bool) (fs' : fsys bytes kid) (d' : document xml bytes),
   WFd xml bytes kid fs d ->
   d_save xml bytes kid ser par pretty stamp entries kids mime rdf0 FIXED fs d t pk pty = (fs', d', true) ->
-  forall n, n <> RDF -> view xml bytes kid par mask fs d' n = view xml bytes kid par mask fs d n.
+  forall n, n <> RDF -> view xml bytes kid par proj mask fs d' n = view xml bytes kid par proj mask fs d n.
 Proof. exact save_pure. Qed.
 Print Assumptions C03_unmodified_identity.
 
@@ -144,7 +144,7 @@ Theorem C03_roundtrip_reachable :
            (entries : xml -> mentries) (with_entries : mentries -> xml -> xml)
            (kids : xml -> list kid) (mime : bytes -> mtype)
            (mime_bytes : mtype -> bytes) (rdf0 : bytes) 
-           (mask : xml -> xml),
+           (proj : Type) (mask : xml -> proj),
          (forall x : xml, par (ser x) = x) ->
          forall (s0 : fsys bytes kid * document xml bytes)
            (os : list (op xml bytes)),
@@ -164,8 +164,8 @@ Theorem C03_roundtrip_reachable :
          fs', d', true) ->
          c_open bytes kid fs' (tgt_id t) false = Some c ->
          forall n : name,
-         view xml bytes kid par mask fs' {| cont := c; xps := nil |} n =
-         view xml bytes kid par mask
+         view xml bytes kid par proj mask fs' {| cont := c; xps := nil |} n =
+         view xml bytes kid par proj mask
            (fst
               (run xml bytes kid ser par pretty stamp entries with_entries kids
                  mime mime_bytes rdf0 FIXED s0 os)) d' n.
@@ -179,7 +179,7 @@ Theorem C03_unmodified_identity_reachable :
            (entries : xml -> mentries) (with_entries : mentries -> xml -> xml)
            (kids : xml -> list kid) (mime : bytes -> mtype)
            (mime_bytes : mtype -> bytes) (rdf0 : bytes) 
-           (mask : xml -> xml),
+           (proj : Type) (mask : xml -> proj),
          (forall x : xml, par (ser x) = x) ->
          forall (s0 : fsys bytes kid * document xml bytes)
            (os : list (op xml bytes)),
@@ -197,11 +197,11 @@ Theorem C03_unmodified_identity_reachable :
          fs', d', true) ->
          forall n : name,
          n <> RDF ->
-         view xml bytes kid par mask
+         view xml bytes kid par proj mask
            (fst
               (run xml bytes kid ser par pretty stamp entries with_entries kids
                  mime mime_bytes rdf0 FIXED s0 os)) d' n =
-         view xml bytes kid par mask
+         view xml bytes kid par proj mask
            (fst
               (run xml bytes kid ser par pretty stamp entries with_entries kids
                  mime mime_bytes rdf0 FIXED s0 os))
